@@ -163,17 +163,26 @@ pub(crate) type SharedDisconnectReason = Arc<std::sync::RwLock<Option<Arc<Error>
 #[derive(Debug)]
 struct ErrorFromBack {
 	conn: mpsc::Sender<FrontToBack>,
+	/// Closed once the shutdown task has recorded the disconnect reason (if any) and terminated.
+	shutdown_done: mpsc::Sender<()>,
 	disconnect_reason: SharedDisconnectReason,
 }
 
 impl ErrorFromBack {
-	fn new(conn: mpsc::Sender<FrontToBack>, disconnect_reason: SharedDisconnectReason) -> Self {
-		Self { conn, disconnect_reason }
+	fn new(
+		conn: mpsc::Sender<FrontToBack>,
+		shutdown_done: mpsc::Sender<()>,
+		disconnect_reason: SharedDisconnectReason,
+	) -> Self {
+		Self { conn, shutdown_done, disconnect_reason }
 	}
 
 	async fn read_error(&self) -> Error {
 		// When the background task is closed the error is written to `disconnect_reason`.
 		self.conn.closed().await;
+		// The front-end channel may be closed before the reason has been written,
+		// wait until the shutdown task is done with it.
+		self.shutdown_done.closed().await;
 
 		if let Some(err) = self.disconnect_reason.read().expect(NOT_POISONED).as_ref() {
 			Error::RestartNeeded(err.clone())
@@ -314,6 +323,7 @@ impl<L> ClientBuilder<L> {
 		let max_buffer_capacity_per_subscription = self.max_buffer_capacity_per_subscription;
 		let (client_dropped_tx, client_dropped_rx) = oneshot::channel();
 		let (send_receive_task_sync_tx, send_receive_task_sync_rx) = mpsc::channel(1);
+		let (shutdown_done_tx, shutdown_done_rx) = mpsc::channel(1);
 		let manager = ThreadSafeRequestManager::new();
 		// Weak: the accessor must not keep the manager (and with it the pending oneshots) alive.
 		#[cfg(jsonrpsee_verif)]
@@ -361,13 +371,18 @@ impl<L> ClientBuilder<L> {
 			inactivity_stream,
 		}));
 
-		tokio::spawn(wait_for_shutdown(send_receive_task_sync_rx, client_dropped_rx, disconnect_reason.clone()));
+		tokio::spawn(wait_for_shutdown(
+			send_receive_task_sync_rx,
+			client_dropped_rx,
+			disconnect_reason.clone(),
+			shutdown_done_rx,
+		));
 
 		Client {
 			to_back: to_back.clone(),
 			service: self.service_builder.service(RpcService::new(to_back.clone())),
 			request_timeout: self.request_timeout,
-			error: ErrorFromBack::new(to_back, disconnect_reason),
+			error: ErrorFromBack::new(to_back, shutdown_done_tx, disconnect_reason),
 			id_manager: RequestIdManager::new(self.id_kind),
 			on_exit: Some(client_dropped_tx),
 			#[cfg(jsonrpsee_verif)]
@@ -393,6 +408,7 @@ impl<L> ClientBuilder<L> {
 		let max_buffer_capacity_per_subscription = self.max_buffer_capacity_per_subscription;
 		let (client_dropped_tx, client_dropped_rx) = oneshot::channel();
 		let (send_receive_task_sync_tx, send_receive_task_sync_rx) = mpsc::channel(1);
+		let (shutdown_done_tx, shutdown_done_rx) = mpsc::channel(1);
 		let manager = ThreadSafeRequestManager::new();
 
 		let ping_interval = PendingIntervalStream::pending();
@@ -422,13 +438,14 @@ impl<L> ClientBuilder<L> {
 			send_receive_task_sync_rx,
 			client_dropped_rx,
 			disconnect_reason.clone(),
+			shutdown_done_rx,
 		));
 
 		Client {
 			to_back: to_back.clone(),
 			service: self.service_builder.service(RpcService::new(to_back.clone())),
 			request_timeout: self.request_timeout,
-			error: ErrorFromBack::new(to_back, disconnect_reason),
+			error: ErrorFromBack::new(to_back, shutdown_done_tx, disconnect_reason),
 			id_manager: RequestIdManager::new(self.id_kind),
 			on_exit: Some(client_dropped_tx),
 			#[cfg(jsonrpsee_verif)]
@@ -1057,6 +1074,8 @@ async fn wait_for_shutdown(
 	mut close_rx: mpsc::Receiver<Result<(), Error>>,
 	client_dropped: oneshot::Receiver<()>,
 	err_to_front: SharedDisconnectReason,
+	// Dropped when this task terminates, i.e. after the disconnect reason has been written.
+	_shutdown_done: mpsc::Receiver<()>,
 ) {
 	let rx_item = close_rx.recv();
 
